@@ -490,6 +490,29 @@ pub fn gen_blackout(seed: u64, params: &Params) -> Scenario {
     }
     s.traffic[0].total = s.traffic[0].total.max(30);
     s.horizon_ns = fair + 6 * 3600 * SEC;
+    if Rng::new(seed ^ 0x5a7).chance(0.2) {
+        // the other side is busy with a backlog of its own at a ceiling of about one frame per
+        // second and stays so long after the network has recovered: whatever it owes the blocked
+        // sender (acknowledgements, the reply to its sync frame) has to get out although its send
+        // credit is spent nearly all the time
+        let mut r = Rng::new(seed ^ 0x5a8);
+        s.cfg[1].max_send_rate = *r.pick(&[1472u32, 2000, 3000]);
+        let t = &mut s.traffic[1];
+        t.per_step_p = 1.0;
+        t.burst = (20, 60);
+        // (full-size frames: each one puts the credit about a second into the red)
+        t.len_class = *r.pick(&[LenClass::Boundary, LenClass::Medium]);
+        t.max_len = 6000;
+        t.total = 400;
+        t.mode_w = *r.pick(&[[0, 3, 1, 1], [0, 1, 0, 1], [1, 2, 1, 1]]);
+        t.stop_ns = fair + r.range(60, 300) * SEC;
+        s.cadence[1] = Cadence::Fixed(*r.pick(&[MS, 5 * MS, 16 * MS + 666_667]));
+        s.cfg[0].rx_alloc = s.cfg[0].rx_alloc.max(20_000);
+        t.amb_p = 0.0;
+        if t.channels.is_empty() {
+            t.channels = vec![0];
+        }
+    }
     s
 }
 
